@@ -109,6 +109,9 @@ pub struct GroupCase {
     pub ift: Option<TableModel>,
     pub iftx: Option<TableModel>,
     pub def: Def,
+    /// the font is the format-12 cmap fixture (extra::base_tables_cmap12)
+    #[serde(default)]
+    pub cmap12: bool,
 }
 
 pub fn run_one(ctx: &Ctx, base: &BaseTables, gc: &GroupCase, sd: &SubsetDefinition, local: &mut Local) {
@@ -267,9 +270,9 @@ pub fn run_groups(ctx: &Ctx, base: &BaseTables) {
         let mut l = Local::default();
         for t in &ift_tables {
             for (d, sd) in defs.iter().zip(&sds) {
-                let gc = GroupCase { ift: Some(TableModel::F2(t.clone())), iftx: None, def: d.clone() };
+                let gc = GroupCase { ift: Some(TableModel::F2(t.clone())), iftx: None, def: d.clone(), cmap12: false };
                 run_one(ctx, base, &gc, sd, &mut l);
-                let gc = GroupCase { ift: None, iftx: Some(TableModel::F2(t.clone())), def: d.clone() };
+                let gc = GroupCase { ift: None, iftx: Some(TableModel::F2(t.clone())), def: d.clone(), cmap12: false };
                 run_one(ctx, base, &gc, sd, &mut l);
                 n += 2;
             }
@@ -298,6 +301,7 @@ pub fn run_groups(ctx: &Ctx, base: &BaseTables) {
                             ift: Some(TableModel::F2(ift_tables[i].clone())),
                             iftx: Some(TableModel::F2(x.clone())),
                             def: d.clone(),
+                                cmap12: false,
                         };
                         run_one(ctx, base, &gc, sd, &mut l);
                         k += 1;
@@ -338,6 +342,7 @@ pub fn run_groups(ctx: &Ctx, base: &BaseTables) {
                                 ift: Some(TableModel::F2(t.clone())),
                                 iftx: Some(TableModel::F1(f1.clone())),
                                 def: d.clone(),
+                                cmap12: false,
                             };
                             run_one(ctx, base, &gc, sd, &mut l);
                             let gc = GroupCase {
@@ -352,6 +357,7 @@ pub fn run_groups(ctx: &Ctx, base: &BaseTables) {
                                     x
                                 })),
                                 def: d.clone(),
+                                cmap12: false,
                             };
                             run_one(ctx, base, &gc, sd, &mut l);
                             n += 2;
@@ -414,9 +420,9 @@ pub fn run_groups(ctx: &Ctx, base: &BaseTables) {
                     t.default_format = default_format;
                     for (d, sd) in defs2.iter().zip(sds2) {
                         let gc = if in_iftx {
-                            GroupCase { ift: None, iftx: Some(TableModel::F2(t.clone())), def: d.clone() }
+                            GroupCase { ift: None, iftx: Some(TableModel::F2(t.clone())), def: d.clone(), cmap12: false }
                         } else {
-                            GroupCase { ift: Some(TableModel::F2(t.clone())), iftx: None, def: d.clone() }
+                            GroupCase { ift: Some(TableModel::F2(t.clone())), iftx: None, def: d.clone(), cmap12: false }
                         };
                         run_one(ctx, base, &gc, sd, &mut l);
                         k += 1;
@@ -445,12 +451,12 @@ pub fn run_groups(ctx: &Ctx, base: &BaseTables) {
                 };
                 for (d, sd) in defs.iter().zip(&sds) {
                     let t = mk(b"p/{id}", c1, g);
-                    let gc = GroupCase { ift: Some(TableModel::F2(t.clone())), iftx: None, def: d.clone() };
+                    let gc = GroupCase { ift: Some(TableModel::F2(t.clone())), iftx: None, def: d.clone(), cmap12: false };
                     run_one(ctx, base, &gc, sd, &mut l);
                     // the same ids split over both tables with one template
                     let a = mk(b"p/{id}", c1, &g[..1]);
                     let b = mk(b"p/{id}", c2, &g[1..]);
-                    let gc = GroupCase { ift: Some(TableModel::F2(a)), iftx: Some(TableModel::F2(b)), def: d.clone() };
+                    let gc = GroupCase { ift: Some(TableModel::F2(a)), iftx: Some(TableModel::F2(b)), def: d.clone(), cmap12: false };
                     run_one(ctx, base, &gc, sd, &mut l);
                     n += 2;
                 }
@@ -470,5 +476,6 @@ pub fn replay(run: &Run, base: &BaseTables, case: &Value) {
     };
     let sd = to_subset_definition(&gc.def);
     let mut l = Local::default();
-    run_one(&ctx, base, &gc, &sd, &mut l);
+    let b12 = crate::extra::base_tables_cmap12();
+    run_one(&ctx, if gc.cmap12 { &b12 } else { base }, &gc, &sd, &mut l);
 }
